@@ -356,6 +356,25 @@ fn run_roundtrip(t: &Ty) -> Outcome {
                 }
             }
         }
+        // a type that was printed and is then widened by one more member (types are values: the
+        // widened one must print as what it now is)
+        for (how, ty) in &variants {
+            let widened = ty.clone() | Type::from_str("struct{zz_w: int}").expect("harness type");
+            let again = widened.clone() | Type::from_str("[struct{zz_v: float}]").expect("harness type");
+            for (step, w) in [("once", &widened), ("twice", &again)] {
+                let txt = w.to_string();
+                match Type::from_str(&txt) {
+                    Err(_) => direct.push(("unparsable".into(), format!("{how} type, printed and then widened {step}, prints as `{txt}` which does not parse"))),
+                    Ok(back) => {
+                        if ctype(&back) != ctype(w) {
+                            direct.push(("roundtrip-differs".into(), format!("{how} type, printed and then widened {step}, is {} but prints as `{txt}` which parses to {}", ctype(w), ctype(&back))));
+                        } else if back != *w {
+                            direct.push(("roundtrip-neq".into(), format!("{how} type, printed and then widened {step}, prints as `{txt}`; re-parsed type is structurally equal but `==` says unequal")));
+                        }
+                    }
+                }
+            }
+        }
         (want, printed_all, direct)
     });
     match r {
